@@ -61,11 +61,15 @@ func (d *Ledger) chance(pct int) bool { return d.R.Intn(100) < pct }
 
 // Scales the drivers use: 1 (literal small values) and large multi-word factors.
 func ScaleFor(i int) *big.Int {
-	switch i % 4 {
+	switch i % 6 {
 	case 0, 1:
 		return big.NewInt(1)
 	case 2:
 		return new(big.Int).Lsh(big.NewInt(1), 64)
+	case 3:
+		return new(big.Int).Lsh(big.NewInt(1), 63) // one unit sits exactly on the sign bit of a 64-bit word
+	case 4:
+		return big.NewInt(1 << 31)
 	default:
 		s := new(big.Int).Lsh(big.NewInt(1), 200)
 		return s.Add(s, big.NewInt(12345))
@@ -465,6 +469,13 @@ func (d *Ledger) flaggedAccts() []string {
 }
 
 func (d *Ledger) someAmount(have int64) int64 {
+	if have > 200 && d.chance(40) {
+		// leave or move an amount right at a byte boundary
+		c := []int64{have - 255, have - 256, 255, 256, 1, have - 1}[d.R.Intn(6)]
+		if c > 0 {
+			return c
+		}
+	}
 	switch d.R.Intn(10) {
 	case 0:
 		return 0
@@ -519,7 +530,11 @@ func (d *Ledger) callType(caller string) vmcommon.CallType {
 func (d *Ledger) actIssue() {
 	tok := d.pickTok(d.Fung)
 	to := d.anyAcct()
-	c := d.call("ESDTTransfer", "esdtsc", to, tok, d.amt(int64(1+d.R.Intn(6))))
+	q := int64(1 + d.R.Intn(6))
+	if d.chance(15) {
+		q = []int64{254, 255, 256, 65535, 65536}[d.R.Intn(5)] // byte-length boundaries of the amount encoding
+	}
+	c := d.call("ESDTTransfer", "esdtsc", to, tok, d.amt(q))
 	d.record("exec", d.shardOfName(to), c)
 }
 
@@ -589,7 +604,22 @@ func (d *Ledger) actUnsetRole() {
 	if role == "ESDTRoleNFTCreate" {
 		return // discipline: the create role only moves by hand-over
 	}
-	c := d.call("ESDTUnSetRole", "esdtsc", to, tok, []byte(role))
+	args := [][]byte{tok, []byte(role)}
+	if d.chance(40) {
+		// several roles in one call, as stored next to each other
+		for i, x := range rl {
+			var xb []byte
+			fmt.Sscanf(x, "%x", &xb)
+			if string(xb) == role && i+1 < len(rl) {
+				var nb2 []byte
+				fmt.Sscanf(rl[i+1], "%x", &nb2)
+				if string(nb2) != "ESDTRoleNFTCreate" {
+					args = append(args, nb2)
+				}
+			}
+		}
+	}
+	c := d.call("ESDTUnSetRole", "esdtsc", to, args...)
 	d.record("exec", d.shardOfName(to), c)
 }
 
@@ -716,7 +746,32 @@ func (d *Ledger) aliasSplit(tok []byte, nonce uint64) ([]byte, uint64) {
 	return append([]byte{}, key[:cut]...), new(big.Int).SetBytes(rest).Uint64()
 }
 
+// actBigMulti: a multi-transfer whose token count crosses a byte boundary (255 / 256 / 257 items of one unit each).
+func (d *Ledger) actBigMulti() bool {
+	for _, h := range d.fungHoldings() {
+		if d.q(h.val) < 300 {
+			continue
+		}
+		k := []int{255, 256, 257}[d.R.Intn(3)]
+		dest := d.destFor(h.acct)
+		args := [][]byte{dest, nb(uint64(k))}
+		one := d.amt(1)
+		for i := 0; i < k; i++ {
+			args = append(args, h.tok, []byte{}, one)
+		}
+		c := d.call("MultiESDTNFTTransfer", h.acct, h.acct, args...)
+		c.Gas = 5000000
+		c.RAE = false
+		d.record("exec", d.shardOfName(h.acct), c)
+		return true
+	}
+	return false
+}
+
 func (d *Ledger) actMulti() {
+	if d.chance(3) && d.actBigMulti() {
+		return
+	}
 	hs := d.holdings()
 	from := d.anyAcct()
 	if len(hs) > 0 {
@@ -870,6 +925,9 @@ func (d *Ledger) actCreate() {
 	if d.chance(50) {
 		qty = int64(d.R.Intn(5))
 	}
+	if d.chance(10) {
+		qty = []int64{255, 256, 257, 65535}[d.R.Intn(4)]
+	}
 	roy := []uint64{0, 10000, 10001, 2500, 1<<32 + 1, 7}[d.R.Intn(6)]
 	args := [][]byte{tok, d.amt(qty), metaNames[d.R.Intn(3)], nb(roy), metaHashes[d.R.Intn(4)], metaAttrs[d.R.Intn(4)]}
 	for i := d.R.Intn(3) + 1; i > 0; i-- {
@@ -960,7 +1018,11 @@ func (d *Ledger) actPause() {
 	if d.chance(6) {
 		caller = d.W.Addr(d.anyAcct())
 	}
-	c := &world.Call{Fn: fn, Caller: caller, Rcpt: world.SysAddr, Args: [][]byte{tok}, Gas: d.gas(), Value: big.NewInt(0)}
+	rc := world.SysAddr
+	if d.chance(25) {
+		rc = d.W.Addr("sysv") // another address with the system-account prefix: the flag still belongs to THE system account of the shard
+	}
+	c := &world.Call{Fn: fn, Caller: caller, Rcpt: rc, Args: [][]byte{tok}, Gas: d.gas(), Value: big.NewInt(0)}
 	d.record("exec", sh, c)
 }
 
@@ -993,7 +1055,8 @@ func (d *Ledger) actKV() {
 	a := d.anyAcct()
 	keys := [][]byte{[]byte("k1"), []byte("key2"), []byte("ELROND"), []byte("ELRONDesdtF1"), []byte("ELRON"), []byte("elrondx"), []byte("ELRONDroleesdtN"), []byte("ELRONDnonceN"), {}, []byte("EL"), []byte("ELROND!")}
 	forged, _ := (&esdt.ESDigitalToken{Value: new(big.Int).Mul(big.NewInt(1000), d.Scale)}).Marshal()
-	vals := [][]byte{[]byte("v"), {}, []byte("value-2"), bytes.Repeat([]byte("z"), 40), forged}
+	forgedRoles, _ := (&esdt.ESDTRoles{Roles: [][]byte{[]byte("ESDTRoleLocalMint"), []byte("ESDTRoleNFTCreate")}}).Marshal()
+	vals := [][]byte{[]byte("v"), {}, []byte("value-2"), bytes.Repeat([]byte("z"), 40), forged, forgedRoles}
 	n := 1 + d.R.Intn(3)
 	var args [][]byte
 	for i := 0; i < n; i++ {
@@ -1253,6 +1316,7 @@ func DefaultWeights(profile string) map[string]int {
 	case "meta":
 		w["create"], w["nft"], w["multi"], w["nftrole"], w["deliver"] = 10, 22, 18, 14, 22
 	case "gas":
+		w["forged"] = 8
 		w["sched"], w["kv"], w["create"], w["nftrole"], w["nft"], w["multi"], w["acct"], w["transfer"] = 6, 10, 12, 12, 18, 20, 8, 16
 	case "payable":
 		w["forged"] = 8
